@@ -420,50 +420,79 @@ def _r10f(chk, repo) -> None:
     for c in [c for c in calls_in(f) if c.args and isinstance(c.args[0], (ast.GeneratorExp, ast.ListComp)) and any(
             isinstance(x, ast.Attribute) and x.attr == "slice_type" for x in ast.walk(c.args[0].elt))]:
         fn = c.func
-        exprs = [fn]
-        if isinstance(fn, ast.Name) and fn.id not in ("any", "all"):
-            exprs, seen_st = [], set()
-            for o in origins(cfg, fn, cfg.stmt_of(c)):
-                # origins() opens a conditional expression into its arms; the choice is what matters here: take the defining statement's value
+        U = {"create_before", "create_after", "replace", "delete"}
+
+        def _vals(t):
+            """(values, positive) of an `edit_type ==/in ...` test, else None."""
+            if isinstance(t, ast.Compare) and len(t.ops) == 1:
+                l, r = t.left, t.comparators[0]
+                if isinstance(l, ast.Constant) and isinstance(t.ops[0], (ast.Eq, ast.NotEq)):
+                    l, r = r, l
+                if isinstance(l, ast.Name):
+                    l = next((o.expr for o in origins(cfg, l, cfg.stmt_of(t) or cfg.stmt_of(c)) if o.kind == "expr" and isinstance(o.expr, ast.AST)), l)
+                if not norm(l).endswith("edit_type"):
+                    return None
+                if isinstance(t.ops[0], (ast.In, ast.NotIn)) and isinstance(r, (ast.Tuple, ast.List, ast.Set)) and all(isinstance(x, ast.Constant) for x in r.elts):
+                    return {x.value for x in r.elts}, isinstance(t.ops[0], ast.In)
+                if isinstance(t.ops[0], (ast.Eq, ast.NotEq)) and isinstance(r, ast.Constant):
+                    return {r.value}, isinstance(t.ops[0], ast.Eq)
+            return None
+
+        def _under(st) -> set:
+            """Edit types under which statement ``st`` runs, as far as edit-type tests on the way tell."""
+            from ..idioms import conditions_at
+
+            u = set(U)
+            for t, pol in conditions_at(cfg, st):
+                v = _vals(t)
+                if v is not None:
+                    vals, positive = v
+                    u &= vals if positive == pol else (U - vals)
+            return u
+
+        def _all_for(e, st) -> Optional[set]:
+            under = _under(st) if st is not None else set(U)
+            if isinstance(e, ast.Name) and e.id == "any":
+                return set()
+            if isinstance(e, ast.Name) and e.id == "all":
+                return under
+            if isinstance(e, ast.IfExp):
+                v = _vals(e.test)
+                a, b = _all_for(e.body, None), _all_for(e.orelse, None)
+                if v is not None and a is not None and b is not None:
+                    vals, positive = v
+                    when_true = vals if positive else (U - vals)
+                    return ((a & when_true) | (b & (U - when_true))) & under
+            return None
+
+        cands = []
+        if isinstance(fn, ast.Name) and fn.id in ("any", "all"):
+            cands = [(fn, cfg.stmt_of(c))]
+        else:
+            seen_st = set()
+            for o in origins(cfg, fn, cfg.stmt_of(c)) if isinstance(fn, ast.Name) else []:
                 if isinstance(o.stmt, (ast.Assign, ast.AnnAssign)) and o.stmt.value is not None and not o.path:
                     if id(o.stmt) not in seen_st:
                         seen_st.add(id(o.stmt))
-                        exprs.append(o.stmt.value)
+                        cands.append((o.stmt.value, o.stmt))
                 elif isinstance(o.expr, ast.AST):
-                    exprs.append(o.expr)
-            if not exprs:
-                raise AnalysisError("R10f: the quantifier of has_template_conflicts' slice test is no longer a local holding any / all (anchor refactored)")
-        for e in exprs:
+                    cands.append((o.expr, o.stmt))
+        if not cands:
+            raise AnalysisError("R10f: the quantifier of has_template_conflicts' slice test is no longer any / all or a local holding one of them (anchor refactored)")
+        total: set = set()
+        for e, st_ in cands:
             nq += 1
-            all_for: Optional[set] = None
-            if isinstance(e, ast.Name) and e.id == "any":
-                all_for = set()
-            elif isinstance(e, ast.IfExp) and isinstance(e.body, ast.Name) and isinstance(e.orelse, ast.Name) and {e.body.id, e.orelse.id} == {"any", "all"}:
-                t = e.test
-                if isinstance(t, ast.Compare) and len(t.ops) == 1 and norm(t.left).endswith("edit_type"):
-                    vals = None
-                    c0 = t.comparators[0]
-                    if isinstance(t.ops[0], (ast.In, ast.NotIn)) and isinstance(c0, (ast.Tuple, ast.List, ast.Set)) and all(isinstance(x, ast.Constant) for x in c0.elts):
-                        vals = {x.value for x in c0.elts}
-                    elif isinstance(t.ops[0], (ast.Eq, ast.NotEq)) and isinstance(c0, ast.Constant):
-                        vals = {c0.value}
-                    if vals is not None:
-                        positive = isinstance(t.ops[0], (ast.In, ast.Eq))
-                        when_true_all = e.body.id == "all"
-                        if positive == when_true_all:
-                            all_for = vals
-                        else:
-                            all_for = {"create_before", "create_after", "replace", "delete"} - vals
-            if all_for is None:
-                chk.fail("R10f", c, f"the quantifier of the templated-slice test is `{short(e, 60)}`: not `any`, and not `all` for the create fixes only", detail="has_template_conflicts: any templated slice conflicts (all only for creates)")
-                continue
-            extra = sorted(all_for - {"create_before", "create_after"})
-            chk.require(
-                not extra, "R10f", c,
-                f"has_template_conflicts asks that ALL slices under the anchor be templated before a {'/'.join(extra)} fix counts as a conflict: a {'/'.join(extra)} whose anchor is part literal, part "
-                "template output survives the discard step, its patch cannot be written and is dropped while its sibling patches are, and the file is left with half of a fix",
-                detail="has_template_conflicts: any templated slice conflicts (all only for creates)",
-            )
+            af = _all_for(e, st_)
+            if af is None:
+                raise AnalysisError(f"R10f: cannot read which of any / all `{short(e, 60)}` stands for in has_template_conflicts (an analysis gap, not a verdict)")
+            total |= af
+        extra = sorted(total - {"create_before", "create_after"})
+        chk.require(
+            not extra, "R10f", c,
+            f"has_template_conflicts asks that ALL slices under the anchor be templated before a {'/'.join(extra)} fix counts as a conflict: a {'/'.join(extra)} whose anchor is part literal, part "
+            "template output survives the discard step, its patch cannot be written and is dropped while its sibling patches are, and the file is left with half of a fix",
+            detail="has_template_conflicts: any templated slice conflicts (all only for creates)",
+        )
     chk.count("R10f.quantifier_sites", nq)
 
 
@@ -1263,6 +1292,18 @@ _KEEP_IF_FLAG = (
 )
 
 VARIANTS = [
+    Variant(
+        "quiet-quantifier-chosen-by-if-statement", "src/sqlfluff/core/rules/fix.py",
+        '        check_fn = all if self.edit_type in ("create_before", "create_after") else any\n',
+        '        if self.edit_type in ("create_before", "create_after"):\n            check_fn = all\n        else:\n            check_fn = any\n',
+        "QUIET", None, "if / else statement instead of a conditional expression",
+    ),
+    Variant(
+        "quantifier-if-statement-gives-all-to-deletes", "src/sqlfluff/core/rules/fix.py",
+        '        check_fn = all if self.edit_type in ("create_before", "create_after") else any\n',
+        '        if self.edit_type == "replace":\n            check_fn = any\n        else:\n            check_fn = all\n',
+        "R10f", "LintFix.has_template_conflicts", "the breaking twin of the if-statement spelling",
+    ),
     Variant(
         "delete-conflicts-only-when-wholly-templated", "src/sqlfluff/core/rules/fix.py",
         '        check_fn = all if self.edit_type in ("create_before", "create_after") else any\n',
